@@ -289,7 +289,7 @@ class EventMixin (object):
 
     # Create a copy so that it can be modified freely during event
     # processing.  It might make sense to change this.
-    handlers = self._eventMixin_handlers.get(eventType, [])
+    handlers = list(self._eventMixin_handlers.get(eventType, []))
     for (priority, handler, once, eid) in handlers:
       if classCall:
         rv = event._invoke(handler, *args, **kw)
